@@ -36,9 +36,13 @@ Proof.
 Qed.
 
 (* one step: close by conversion, else descend / split *)
+(* agreement theorems already proved (a translated function calling another translated function) *)
+Create HintDb agree_db.
+
 Ltac agree_step :=
   first
     [ reflexivity
+    | progress autorewrite with agree_db
     | match goal with
       | |- crun _ = crun _ => apply crun_ext
       | |- cbind _ _ = cbind _ _ => apply cbind_ext; [|intros]
